@@ -79,6 +79,7 @@ unsigned long vp_wait_refs(wait_context* w) { return w->m_ref_count.load(std::me
 // these functions pending (vp_exc), the harness's dispatcher model handles it
 task* vp_task_execute(task* t, execution_data* ed) { return static_cast<SR*>(t)->SR::execute(*ed); }
 task* vp_task_cancel(task* t, execution_data* ed) { return static_cast<SR*>(t)->SR::cancel(*ed); }
+void* vp_task_range_addr(task* t) { return &static_cast<SR*>(t)->my_range; }     // storage of the task's Range member (liveness probe)
 // keeps the node's struct type in the IR (typed allocation in the harness)
 int vp_node_refs(SR::tree_node_type* n) { return n->m_ref_count.load(std::memory_order_relaxed) + (int)n->m_child_stolen.load(std::memory_order_relaxed) + (n->left_body.id != 0); }
 unsigned vp_sizeof_task() { return sizeof(SR); }
